@@ -72,6 +72,10 @@ def run(tier):
         else:
             C.mc_hold(rep, wd, "mc1", ["RoundTrip", "LayoutLemmas"], 1, 4)
             C.mc_hold(rep, wd, "mc2", ["RoundTrip", "LayoutLemmas"], 2, 2)
+        tcfg = 'INIT Init\nNEXT Next\nCONSTANTS Mode = "roundtrip"\nMaxBin = %d\nMaxLen = 0\nINVARIANT RoundTrip\nINVARIANT LineWidth\n' % (90 if tier == "quick" else 200)
+        tres = tlc.require_ok(tlc.run(os.path.join(SPEC, "MC_Text.tla"), tcfg, os.path.join(wd, "mctext"), workers=16, timeout=1200), "MC_Text")
+        rep.add_mc("MC_Text: ReadText(WriteText(cm, bin)) = (cm, bin) for all comment maps over 3 keys x 3 values (both orders), every binary length "
+                   "0..%d, with/without the trailing empty line and through CRLF translation; upper-case, <= 80 columns" % (90 if tier == "quick" else 200), tres)
         C.mc_refuted(rep, wd, "st_enc", "RoundTrip", "ENC_NEVER_DECRYPTS")
         # --- S->C
         gen = tlc.require_ok(tlc.run(os.path.join(SPEC, "Gen_Bf3.tla"),
